@@ -16,6 +16,7 @@ On every run:
 import os, sys, subprocess, hashlib, shutil, time
 from .core import VERIF, BUILD, REPO, line_of, parse_out, compare
 from . import py2lean
+from . import py2lean_api
 
 LEAN_DIR = os.path.join(VERIF, 'lean')
 COMMITTED = os.path.join(LEAN_DIR, 'PySpikeVerif', 'Gen', 'Backend.lean')
@@ -69,7 +70,8 @@ def _std_lean_path():
 def translate(pyx=False):
     try:
         fn = {False: py2lean.generate, True: py2lean.generate_pyx, 'classes': py2lean.generate_classes,
-              'classes2': py2lean.generate_classes2, 'classes3': py2lean.generate_classes3, 'isilen': py2lean.generate_isi_lengths}[pyx]
+              'classes2': py2lean.generate_classes2, 'classes3': py2lean.generate_classes3, 'isilen': py2lean.generate_isi_lengths,
+              'api': py2lean_api.generate_api}[pyx]
         return fn(REPO), None
     except py2lean.Untranslatable as ex:
         return None, str(ex)
@@ -77,7 +79,7 @@ def translate(pyx=False):
         return None, 'source could not be read: %r' % ex
 
 
-GEN_MODULE = {False: 'Backend', True: 'BackendPyx', 'classes': 'Classes', 'classes2': 'Classes2', 'classes3': 'Classes3', 'isilen': 'IsiLengths'}
+GEN_MODULE = {False: 'Backend', True: 'BackendPyx', 'classes': 'Classes', 'classes2': 'Classes2', 'classes3': 'Classes3', 'isilen': 'IsiLengths', 'api': 'Api'}
 
 
 def _imports_of(path):
@@ -502,6 +504,20 @@ def gen_tie_isi_lengths(tier, rng):
         return _validate_ops(cases, lean_path, 'GenClsMain.lean')
     return _family('isilen', os.path.join(LEAN_DIR, 'PySpikeVerif', 'Gen', 'IsiLengths.lean'), 'isi_lengths',
                    ['pyspike/isi_lengths.py (isi_lengths)'], val)
+
+
+def gen_tie_api(tier, rng):
+    """pyspike/spikes.py: reconcile_spike_trains, reconcile_spike_trains_bi, merge_spike_trains (Gen/Api.lean), C13 / C20"""
+    from . import gens
+    def val(lean_path):
+        n = 150 if tier == 'quick' else 1200
+        cases = [(op, f) for op, f, _ in gens.reconcile_cases(rng, n) if op == 'reconcile']
+        cases += [(op, f) for op, f, _ in gens.misc_cases(rng, n) if op == 'merge']
+        return _validate_ops(cases, lean_path, 'GenApiMain.lean')
+    r = _family('api', os.path.join(LEAN_DIR, 'PySpikeVerif', 'Gen', 'Api.lean'), 'reconcile / merge',
+                ['pyspike/spikes.py (reconcile_spike_trains, reconcile_spike_trains_bi, merge_spike_trains)', 'pyspike/SpikeTrain.py (digest only: the constructor is modelled)'], val)
+    r['translator'] = 'harness/py2lean_api.py'
+    return r
 
 
 def gen_tie_interval_lists(tier, rng):
